@@ -238,6 +238,15 @@ CLAIMED.update({
     },
 })
 
+
+_GENERIC = (" Plus the repository-wide disciplines over the modules the property is anchored in: TRUTHY (no temperature / duty / pinch / row index tested by "
+            "truthiness), MEMO-KEY / MEMO-DEP / RECOMPUTE (cache keys complete and raw, memo dependencies invalidatable, registry never used as a cache), "
+            "ARG-TYPE (flag vs number across resolved calls).")
+for _p in ("C02", "C03", "C05", "C06", "C07", "C08", "C09", "C10", "C13", "C16", "C17", "C18", "C19", "C20"):
+    if "TRUTHY" not in CLAIMED[_p]["technique"]:
+        CLAIMED[_p]["technique"] += _GENERIC
+CLAIMED["C10"]["technique"] += " DEDUP-ID: taint of input stream records into every keep-one-per-key construct (identity keys only)."
+
 NOT_APPLICABLE = {
 }
 for _p in ["C02", "C03", "C05", "C06", "C07", "C08", "C09", "C10", "C11", "C13", "C14", "C16", "C17", "C18", "C19"]:
